@@ -34,6 +34,7 @@ BY_PROPERTY = {
               'Mahotas.pybody_morph_close_holes_eq_model'])],
     'C20': [('Mahotas.Proofs.PyBodyTiesC20', ['Mahotas.pybody_stretch_stretch_eq_model',
                                               'Mahotas.pybody_stretch_stretch_eq_stretchList',
+                                              'Mahotas.pybody_stretch_stretch_eq_stretchIntG',
                                               'Mahotas.pybody_colors_rgb2xyz_eq_model', 'Mahotas.pybody_colors_rgb2xyz_pixel',
                                               'Mahotas.pybody_colors_xyz2rgb_eq_model', 'Mahotas.pybody_colors_xyz2rgb_pixel'])],
     'C06': [('Mahotas.Proofs.PyBodyTiesC06', ['Mahotas.pybody_convolve_gaussian_filter1d_eq_model',
